@@ -250,6 +250,10 @@ class FileWorld(object):
                 st = file_ops.gen_step(self, rng)
                 if st is not None and st.get("op") in ("ds_write", "arr_write") and rng.random() < 0.15:
                     st["alias"] = True      # the documented alias .write(...) of .write_nc(...)
+                if st is not None and st.get("op") == "ds_write" and st.get("mode") == "a" and rng.random() < 0.3:
+                    st["aplus"] = True      # 'a+' on a file that exists is an append
+                if st is not None and st.get("op") == "arr_write" and st.get("mode") in ("a", "a+") and rng.random() < 0.2:
+                    st["clobber"] = True    # clobber concerns mode 'w' only
                 return st
             except (IndexError, ValueError, KeyError, Skip):
                 continue        # a generator met a state it has no candidate for (empty choice): draw again
